@@ -21,6 +21,8 @@ var c12Routes = []string{
 	"/{m: **}", "/{m: **, capture: 2}/e", "/{**}", "/n/?{x}", "/n/?b", "/?{x}", "/{x}/?{y}", "/{x}{y}", "/a+b{x}", "/n/?{m: **}", "/{x}/{y}/{z}",
 	"/{x}/?{y: /a+/, z: /b+/}", "/p{x}q{y}r", "/{g: /(a|b)+/}{x}",
 	"/users/{user-id}/posts/{post.id}", "/{a~b}/{c@d: /x+/}", "/{k=v}-{l+m}", "/t/{(p)}/{**}",
+	// route shapes that a path-cleaning builder would alter: trailing slash, dot segments
+	"/d/{x}/", "/d/", "/./{x}", "/{x}/../{y}", "/d/./e/{x}/..", "/d/{x}/?",
 }
 
 var c12Values = []string{"\x00absent", "v", "", "{x}", "{y}", "{self}", "a/b", "}", "{", "%2F", "x y", "v/y/v"}
